@@ -231,11 +231,30 @@ def run(ck):
         n_k += 1
         ck.analysed(fn['path'])
         sized = []
+        raw = []
         for c in H.calls_in(fn['body']):
-            if c.get('m') in ('len', 'is_empty', 'count') and 'HashMap<&str, uigen::objcode::PropertyCode' in (L.ty(c['recv'], adjusted=True) or L.ty(c['recv']) or ''):
+            if c.get('m') not in ('len', 'is_empty', 'count'):
+                continue
+            t = (L.ty(c['recv'], adjusted=True) or '') + ' ' + (L.ty(c['recv']) or '')
+            if 'HashMap<&str, uigen::objcode::PropertyCode' in t:
                 sized.append(c)
+            elif re.search(r'qmlast::\w+::UiBindingMap|UiBindingValue|qmlast::\w+::UiObjectDefinition|HashMap<&\S* ?\[?qmlast', t) or any(x.get('m') in ('bindings', 'build_binding_map', 'attached_type_map', 'build_attached_type_map') for x in H.calls_in(c['recv'])):
+                raw.append(c)
         ck.ob('R20.8', 'kind-independent-of-binding-count|%s' % short(fn['path']), not sized, L.loc(sized[0]) if sized else L.loc(fn['body']),
               'the decision reads the class and named bindings only' if not sized else
               'the decision reads the size of the binding map (%s): a binding that is later found faulty still counts, so the faulty document and the same document without that binding get different element kinds '
               '(a separator becomes a real action and the parent\'s <addaction> entry changes)' % pp(sized[0], maxlen=50), fn=fn['path'])
+        # the bindings as written in the source are a worse thing to count: also those that were dropped with a diagnostic (unknown property,
+        # unknown signal, an expression that does not build) are still there
+        ck.ob('R20.8', 'kind-independent-of-source-binding-count|%s' % short(fn['path']), not raw, L.loc(raw[0]) if raw else L.loc(fn['body']),
+              'the decision does not count the bindings written in the source' if not raw else
+              'the decision counts the bindings as written in the source (%s): a binding that was refused with a diagnostic still counts, so any single fault on the object changes its element kind' % pp(raw[0], maxlen=60), fn=fn['path'])
     ck.floor('R20.8', n_k, 3, 'kind-deciding functions')
+
+    # ---- R20.9 "every error is still reported": a binding that is taken out of the generic map is read on every path (C04 R4.3) --------------
+    import core as _core
+    import rules.c04 as c04
+    ck.rule('R20.9', 'bindings taken out of generic handling are still evaluated on every path (shared with C04)')
+    s4 = _core.Shared(ck, 'R20.9', lambda r, k: r == 'R4.3', 'C04:', ' [preview mode has no later pass: what is not evaluated while the form is built is never type-checked and never reported]')
+    c04.run(s4)
+    ck.floor('R20.9', s4.count, 20, 'shared C04 R4.3 obligations')
